@@ -52,3 +52,5 @@ def run(R):
     for n, v in (("lim_max", M), ("lim_lowest", -M), ("lim_nan", NAN), ("nan_result", NAN)):
         c = R.call(h, n, [])
         R.verify("%s/value" % n, [], [c], T, c.out == val(v), note="numeric_limits constant == %d" % v)
+    # the optimised code computes what the source computes (every wrapper, clang -O2)
+    R.tv_guard(h, UNITS, dom=lambda u, ins: z3.BoolVal(True))
